@@ -17,7 +17,7 @@ LEVEL_TEXT = (
     'trace uses the caller\'s seed. Wall-clock bounds and "reaches the target when more states exist" '
     'are not decided.')
 
-FLOORS = {'C12-R1': 24, 'C12-R2': 6, 'C12-R3': 8, 'C12-R4': 3, 'C05-R1': 6, 'C05-R10': 2, 'C12-R6': 4, 'C12-R7': 4, 'C12-R8': 20, 'C01-R6': 12, 'C05-R6': 4}
+FLOORS = {'C12-R1': 24, 'C12-R2': 6, 'C12-R3': 8, 'C12-R4': 3, 'C05-R1': 6, 'C05-R10': 2, 'C12-R6': 4, 'C12-R7': 4, 'C12-R8': 20, 'C01-R6': 12, 'C05-R6': 4, 'C01-R4': 8}
 
 OPTIONS = ('finish_when', 'target_state_count', 'target_max_depth', 'timeout', 'visitor', 'thread_count')
 
@@ -607,3 +607,11 @@ def extra_rules(ctx, F):
     for strat in EXHAUSTIVE:
         with ctx.rule('C01-R6', strat):
             c01.r6_counters(ctx, F, CB(F, strat))
+    # "evaluates every state nearer than the depth limit" / "does not stop below the target while more states exist":
+    # a job that was dequeued is expanded or leaves through a sanctioned exit - the per-block budget is tested
+    # before the dequeue, so running out of it drops nothing
+    ctx.doc('C01-R4', 'check_block: from the dequeue every path to the next dequeue / return passes Model::actions or a '
+                      'sanctioned exit; the block budget is tested before the dequeue')
+    for strat in EXHAUSTIVE:
+        with ctx.rule('C01-R4', strat):
+            c01.r4_expand_or_sanctioned(ctx, CB(F, strat))
